@@ -197,7 +197,7 @@ func TestVerif_C12(t *testing.T) {
 	c := vStart(t, "C12", "TestVerif_C12")
 	defer c.Finish()
 	cfgs := c12Configs()
-	maxLen := int(c.N(5, 7))
+	maxLen := int(c.N(5, 8)) // length 8 (thorough) only on the configurations with the continuous recorder on
 	group := int64(0)
 	mineGroup := func(g int64) bool {
 		if c.OnlyCase >= 0 {
@@ -212,6 +212,9 @@ func TestVerif_C12(t *testing.T) {
 			total *= len(c12Alphabet)
 		}
 		for _, cfg := range cfgs {
+			if L == 8 && !cfg.Constant {
+				continue
+			}
 			for n := 0; n < total; n++ {
 				g := group
 				group++
@@ -280,7 +283,7 @@ func TestVerif_C12(t *testing.T) {
 	}
 	c.SetExhaustive(true)
 	// Part 2: random long scripts, multi-fault (per-call fault probability)
-	nrand := c.N(4000, 150000)
+	nrand := c.N(4000, 1500000)
 	for s := int64(0); s < nrand; s++ {
 		g := group
 		group++
